@@ -5231,7 +5231,38 @@ class Arc(Curve):
                 self.pry *= other
             if other.determinant < 0:
                 self.sweep = -self.sweep
+            self._orthogonalize_axes()
         return self
+
+    def _orthogonalize_axes(self):
+        """
+        An affine transformation maps the axes of the ellipse to a pair of conjugate
+        diameters which are not perpendicular if the transformation skews them. Since
+        prx and pry are taken as the perpendicular axes of the ellipse, they are replaced
+        by the axes of the ellipse described by those conjugate diameters.
+        """
+        if self.center is None or self.prx is None or self.pry is None:
+            return
+        ux = self.prx.x - self.center.x
+        uy = self.prx.y - self.center.y
+        vx = self.pry.x - self.center.x
+        vy = self.pry.y - self.center.y
+        dot = ux * vx + uy * vy
+        uu = ux * ux + uy * uy
+        vv = vx * vx + vy * vy
+        if abs(dot) <= 1e-12 * sqrt(uu * vv):
+            return  # Axes are perpendicular.
+        t = atan2(2 * dot, uu - vv) / 2.0
+        cos_t = cos(t)
+        sin_t = sin(t)
+        self.prx = Point(
+            self.center.x + ux * cos_t + vx * sin_t,
+            self.center.y + uy * cos_t + vy * sin_t,
+        )
+        self.pry = Point(
+            self.center.x - ux * sin_t + vx * cos_t,
+            self.center.y - uy * sin_t + vy * cos_t,
+        )
 
     def __len__(self):
         return 5
